@@ -1372,16 +1372,33 @@ def _tuple_states(model: Model, P: RuleResult):
     else:
         P.bad(cand, cand.node, "the tuple-state wrapper must be flatten(pfcn(t, pack(ytensor), *params)) with one and the same packer")
     # y0 flattened before apply, result packed
+    # the block that defines the wrapper: an arm of `if is_y0_list` or the function body after a guard clause
+    class _Blk:
+        body: list = []
     src_if = None
-    for s in f.node.body:
-        if isinstance(s, ast.If) and any(n is cand.node for n in ast.walk(s)):
-            src_if = s
+    for owner in ast.walk(f.node):
+        for fld in ("body", "orelse"):
+            blk = getattr(owner, fld, None)
+            if isinstance(blk, list) and any(x is cand.node for x in blk):
+                src_if = _Blk()
+                src_if.body = blk
+                src_if.lineno = getattr(blk[0], "lineno", 0)
     ok2 = False
     if src_if is not None:
         fl = [s for s in src_if.body if isinstance(s, ast.Assign) and isinstance(s.targets[0], ast.Name) and s.targets[0].id == y0p
               and isinstance(s.value, ast.Call) and ast.unparse(s.value.func) == roller + ".flatten" and ast.unparse(s.value.args[0]) == y0p]
         ap = [s for s in src_if.body if isinstance(s, ast.Assign) and isinstance(s.value, ast.Call) and ast.unparse(s.value.func).endswith(".apply")]
         rt = [s for s in src_if.body if isinstance(s, ast.Return)]
+        if fl and rt and not ap and isinstance(rt[-1].value, ast.Call) and rt[-1].value.args and isinstance(rt[-1].value.args[0], ast.Call) \
+                and ast.unparse(rt[-1].value.args[0].func).endswith(".apply"):
+            # `return roller.pack(_SolveIVP.apply(...))`: the load-time normal form of `yt = apply(..); return roller.pack(yt)`
+            tmp = ast.Assign(targets=[ast.Name(id="@applied", ctx=ast.Store())], value=rt[-1].value.args[0])
+            ast.copy_location(tmp, rt[-1])
+            ap = [tmp]
+            packed = ast.Return(value=ast.Call(func=rt[-1].value.func, args=[ast.Name(id="@applied", ctx=ast.Load())], keywords=[]))
+            ast.copy_location(packed, rt[-1])
+            rt = [packed]
+            src_if.body = list(src_if.body[:-1]) + [tmp, packed]
         if fl and ap and rt:
             apc = ap[0].value
             uses_wrapper = isinstance(apc.args[0], ast.Name) and apc.args[0].id == cand.name
@@ -1392,7 +1409,7 @@ def _tuple_states(model: Model, P: RuleResult):
     if ok2:
         P.ok(f.fq, "the tuple y0 is flattened before integration, the wrapped dynamics are integrated and the trajectory is unflattened with the same packer")
     else:
-        P.bad(f, src_if or f.node, "tuple states: y0 must be flattened, integrated through the wrapper and the result packed back, all with one packer")
+        P.bad(f, f.node, "tuple states: y0 must be flattened, integrated through the wrapper and the result packed back, all with one packer")
     _tensor_packer(model, P)
 
 
